@@ -160,6 +160,9 @@ static Job make_job(int kind, Rng& r, int variant)
     Job j;
     j.kind = kind;
     j.n = 40 + r.below(60);
+    // breakdown-heavy rounds mix very small and large problems: thresholds that depend on n (eps * sqrt(n)) differ by a factor of 6
+    if (variant == 1 && kind < 4)
+        j.n = r.below(2) ? 10 + r.below(4) : 300 + r.below(100);
     const bool gen = kind == 1 || kind == 3;
     j.nev = 2 + r.below(3);
     j.ncv = std::min(j.n, 2 * j.nev + 3 + r.below(6));
@@ -209,6 +212,9 @@ static Job make_job(int kind, Rng& r, int variant)
             A = U * U.transpose();
         j.ncv = std::min(j.n, std::max(j.ncv, rk + 4));
         j.nev = std::min(j.nev, rk);
+        // norm about 5: the rounding-level residual after the exact breakdown (a few eps * ||A||) then lies between eps * sqrt(n) of the
+        // small and of the large problems of the round
+        A *= 5.0L / A.norm();
     }
     else
     {
